@@ -1,6 +1,6 @@
 import Rivaas.Spec.LogBuf
 /-
-Invariants of the buffering machine (`Model/LogBuf.lean`) with all four repairs switched on, proved
+Invariants of the buffering machine (`Model/LogBuf.lean`) with all five repairs switched on, proved
 per segment and lifted to every schedule in `Props/C20.lean`. Core Lean only.
 -/
 namespace Rivaas.LogBuf
@@ -222,21 +222,17 @@ theorem sinv_advance {progs : List (List Op)} {s : St} (g : Nat) (h : SInv progs
       · rename_i op rest hops
         cases op with
         | log c =>
-          simp only
+          simp only [Flags.fixed, Bool.not_true, Bool.and_false, Bool.false_eq_true, if_false]
+          -- (K20f repaired: a stale slog.Logger goes the same way as the Logger, with its own level)
           split
-          · -- stale logger (K20f): straight to the final handler, or dropped by its own level
-            split
-            · exact sinv_gate h hw rfl (fun hc => by cases hc) (Or.inl rfl) h.f3 h.f4 h.f5 h.f6
-            · exact sinv_finish h hw rfl (Or.inl rfl) h.f3 h.f4 h.f5 h.f6
+          · exact sinv_finish h hw rfl (Or.inl rfl) h.f3 h.f4 h.f5 h.f6
           · split
-            · exact sinv_finish h hw rfl (Or.inl rfl) h.f3 h.f4 h.f5 h.f6
-            · split
-              · rename_i hwb
-                simp only [emit_wrapped, emit_buffering, Bool.and_eq_true] at hwb
-                refine sinv_finish h hw rfl (Or.inl rfl) h.f3 h.f4 ?_ ?_
-                · intro hc; simp only [emit_buffering] at hc; rw [hwb.2] at hc; cases hc
-                · exact h.f6
-              · exact sinv_gate h hw rfl (fun hc => by cases hc) (Or.inl rfl) h.f3 h.f4 h.f5 h.f6
+            · rename_i hwb
+              simp only [emit_wrapped, emit_buffering, Bool.and_eq_true] at hwb
+              refine sinv_finish h hw rfl (Or.inl rfl) h.f3 h.f4 ?_ ?_
+              · intro hc; simp only [emit_buffering] at hc; rw [hwb.2] at hc; cases hc
+              · exact h.f6
+            · exact sinv_gate h hw rfl (fun hc => by cases hc) (Or.inl rfl) h.f3 h.f4 h.f5 h.f6
         | startBuffering =>
           simp only
           split
@@ -675,7 +671,7 @@ theorem pendSeqs_snoc (s : St) (r : BRec) (g : Nat) :
   · simp [hg]
 
 /-- the order invariant is preserved by every segment of every worker -/
-theorem oinv_advance {progs : List (List Op)} {s : St} (g : Nat) (hns : NoStale progs) (hs : SInv progs s)
+theorem oinv_advance {progs : List (List Op)} {s : St} (g : Nat) (hs : SInv progs s)
     (h : OInv progs s) : OInv progs (advance Flags.fixed s g) := by
   unfold advance
   split
@@ -730,8 +726,7 @@ theorem oinv_advance {progs : List (List Op)} {s : St} (g : Nat) (hns : NoStale 
         cases op with
         | log c =>
           simp only
-          have hst := stale_false_of_sync hns (hs.sync g w hw) hops
-          simp only [hst, Bool.false_eq_true, if_false]
+          simp only [Flags.fixed, Bool.not_true, Bool.and_false, Bool.false_eq_true, if_false]
           split
           · exact oinv_finish_quiet h hw rfl [.begin g w.idx] rfl (by simp [isWrite]) rfl
           · split
@@ -806,7 +801,7 @@ theorem oinv_advance {progs : List (List Op)} {s : St} (g : Nat) (hns : NoStale 
               · rename_i hkeep
                 have hemp := empty_of_not_buffering hs (s := s) (by simpa [Flags.fixed] using hkeep)
                 exact oinv_finish_quiet
-                  (s' := { (emit s [.begin g w.idx]) with level := lvl, wrapped := false, buffering := false, buffer := [] })
+                  (s' := { (emit s [.begin g w.idx]) with level := lvl, wrapped := Flags.fixed.stable, buffering := false, buffer := [] })
                   h hw rfl [.begin g w.idx] rfl (by simp [isWrite]) (by simp [hemp.2])
         | shutdown =>
           exact oinv_finish_quiet (s' := { (emit s [.begin g w.idx]) with shutdown := true }) h hw rfl
@@ -1069,7 +1064,7 @@ theorem filter_inCall_eq {l : List (Nat × Nat × Bool)} {g i : Nat} (b : Bool) 
 
 /-- the delivery relation is preserved by every segment of every worker -/
 theorem drel_advance {custom : Bool} {progs : List (List Op)} {s : St} {m : DMon} (g : Nat)
-    (hns : NoStale progs) (hs : SInv progs s) (ho : OInv progs s) (h : DRel custom s m) :
+    (hs : SInv progs s) (ho : OInv progs s) (h : DRel custom s m) :
     DStepTo custom progs s m (advance Flags.fixed s g) := by
   unfold advance
   split
@@ -1185,8 +1180,7 @@ theorem drel_advance {custom : Bool} {progs : List (List Op)} {s : St} {m : DMon
           have hany : ((g, w.idx, mustDeliver s.level s.shutdown c) :: m.inCall).any
               (fun x => x.1 == g && x.2.1 == w.idx && x.2.2) = mustDeliver s.level s.shutdown c := by
             simp [List.any_cons, any_inCall_false hno]
-          have hst := stale_false_of_sync hns (hs.sync g w hw) hops
-          simp only [hst, Bool.false_eq_true, if_false]
+          simp only [Flags.fixed, Bool.not_true, Bool.and_false, Bool.false_eq_true, if_false]
           split
           · -- not accepted: the call returns at once
             rename_i hrej
@@ -1195,6 +1189,10 @@ theorem drel_advance {custom : Bool} {progs : List (List Op)} {s : St} {m : DMon
               | false => rfl
               | true =>
                 have hacc := (accepted_of_must hmd).1
+                have hstf : c.stale = false := by
+                  simp only [mustDeliver, Bool.and_eq_true, Bool.not_eq_true'] at hmd
+                  exact hmd.2
+                simp only [hstf, cond_false] at hrej
                 simp only [Bool.and_eq_true, decide_eq_true_eq, Bool.or_eq_true, Bool.not_eq_true'] at hacc
                 simp only [emit_level, emit_shutdown, Bool.not_eq_true', Bool.and_eq_false_iff,
                   Bool.or_eq_false_iff, Bool.not_eq_false'] at hrej
@@ -1304,7 +1302,7 @@ theorem drel_advance {custom : Bool} {progs : List (List Op)} {s : St} {m : DMon
               · rename_i hkeep
                 have hemp := empty_of_not_buffering hs (s := s) (by simpa [Flags.fixed] using hkeep)
                 exact drel_finish_plain
-                  (s' := { (emit s [.begin g w.idx]) with level := lvl, wrapped := false, buffering := false, buffer := [] })
+                  (s' := { (emit s [.begin g w.idx]) with level := lvl, wrapped := Flags.fixed.stable, buffering := false, buffer := [] })
                   h hw hnp hop (by intro c hc; cases hc) (by intro hc; cases hc) hm rfl rfl rfl rfl rfl rfl rfl rfl h.sd rfl
                   (by simp [hemp.2])
         | shutdown =>
